@@ -75,16 +75,7 @@ impl DataAggregator {
 //@ subst `assert((fi.segments[i].cas_hash)` => `assert((fi.segments[i as int].cas_hash)` :: spec form of Vec indexing inside a debug assertion turned proof obligation (spec index takes `int`); same element
 //@ subst `vx_self.pending_file_info.into_iter().map(|(fi, _)| fi).collect()` => `vx_file_infos(vx_self.pending_file_info)` :: R7 outline of an iterator chain (projection to the file records, dropping the emptied ref lists)
 //@ contract
-        requires self.agg_wf(), /*@C15*/ self.within_limits(),
-        ensures
-            /*@C02,C15*/ xorb_wf(r.0, self.chunks@),
-            /*@C15*/ xorb_le_limits(r.0),
-            /*@C15*/ self.chunks@.len() >= 1 ==> xorb_within_limits(r.0),
-            r.1@.len() == self.pending_file_info@.len(),
-            forall|k: int| 0 <= k < r.1@.len() ==> file_resolved(#[trigger] self.pending_file_info@[k], r.1@[k], r.0.cas_info.metadata.cas_hash),
-            /*@C15*/ forall|k: int, i: int| 0 <= k < r.1@.len() && 0 <= i < r.1@[k].segments@.len() ==> (#[trigger] r.1@[k].segments@[i]).cas_hash != zero_hash(),
-            /*@C02*/ forall|k: int| 0 <= k < r.1@.len() ==> segs_ok((#[trigger] r.1@[k]).segments@, Seq::<MerkleHash>::empty()),
-            /*@C01,C02*/ forall|k: int| 0 <= k < r.1@.len() ==> flatten((#[trigger] r.1@[k]).segments@, Seq::<MerkleHash>::empty()) == self.den(k),
+//@ include prelude/c_agg_finalize.rs
 //@ body-start
         let ghost p0 = self.pending_file_info@; let ghost nd = hashes(self.chunks@);
 //@ loop 1
@@ -139,23 +130,7 @@ impl DataAggregator {
 //@ extract deduplication/src/data_aggregator.rs in `impl DataAggregator` fn merge_in
 //@ rules R4m
 //@ contract
-        requires
-            old(self).agg_wf(), other.agg_wf(), xorb_config_ok(),
-            // proved by the caller (U-SESSCUT): the sum is within both limits
-            /*@C15*/ old(self).chunks@.len() + other.chunks@.len() <= spec_MAX_XORB_CHUNKS(),
-            /*@C15*/ old(self).num_bytes + other.num_bytes <= spec_MAX_XORB_BYTES(),
-            // configuration: needed only for the second debug assertion, which compares a chunk COUNT with MAX_XORB_BYTES
-            spec_MAX_XORB_CHUNKS() <= spec_MAX_XORB_BYTES(),
-        ensures
-            final(self).agg_wf(), /*@C15*/ final(self).within_limits(),
-            final(self).chunks@ == old(self).chunks@ + other.chunks@,
-            final(self).num_bytes == old(self).num_bytes + other.num_bytes,
-            final(self).pending_file_info@.len() == old(self).pending_file_info@.len() + other.pending_file_info@.len(),
-            forall|k: int| 0 <= k < old(self).pending_file_info@.len() ==> (#[trigger] final(self).pending_file_info@[k]) == old(self).pending_file_info@[k],
-            forall|k: int| 0 <= k < other.pending_file_info@.len() ==>
-                file_shifted(#[trigger] other.pending_file_info@[k], final(self).pending_file_info@[old(self).pending_file_info@.len() + k], old(self).chunks@.len() as int),
-            /*@C01*/ forall|k: int| 0 <= k < old(self).pending_file_info@.len() ==> #[trigger] final(self).den(k) == old(self).den(k),
-            /*@C01*/ forall|k: int| 0 <= k < other.pending_file_info@.len() ==> final(self).den(old(self).pending_file_info@.len() + k) == #[trigger] other.den(k),
+//@ include prelude/c_agg_merge_in.rs
 //@ body-start
         let ghost c0 = self.chunks@; let ghost oc = other.chunks@; let ghost nd = hashes(c0); let ghost od = hashes(oc);
         let ghost p0 = self.pending_file_info@; let ghost q0 = other.pending_file_info@;
